@@ -62,6 +62,10 @@ async def run(
     # Start simulator processes
     processes: List[asyncio.Task[None]] = []
     for sim in world.sims.values():
+        # (sim_process sets this again when it starts, but the progress
+        # of all simulators is already advanced when the first of them
+        # has finished its first step.)
+        sim.rt_start = perf_counter()
         process = world.loop.create_task(
             sim_process(world, sim, until, rt_factor, rt_strict, lazy_stepping),
             name=f"Runner for {sim.sid}"
